@@ -81,7 +81,9 @@ def build(case):
     return doc, toc
 
 
-def judge(ctx, doc, toc, case, where, default_styles):
+def judge(ctx, doc, toc, case, where, default_styles, title="$case"):
+    if title == "$case":
+        title = case["title"]
     xml = doc.content.serialize()
     root = odfread.parse(xml)
     tocs = list(root.iter(odfread.q("text:table-of-content")))
@@ -106,9 +108,9 @@ def judge(ctx, doc, toc, case, where, default_styles):
         ctx.check(not any(True for _ in p.iter(odfread.T_LB)) or any("\n" in t for t in texts), ("C20", where, "entry-has-line-break"),
                   f"TOC entry contains a line break: {odfread.ws_text(p)!r}", case)
     titles = [ch for ch in ib if ch.tag == odfread.q("text:index-title")]
-    if case["title"]:
-        ctx.check(len(titles) == 1 and odfread.ws_text(titles[0][0]) == case["title"] and ib[0] is titles[0], ("C20", where, "title"),
-                  f"title {case['title']!r} not kept first: {[odfread.ws_text(t) for t in titles]}", case)
+    if title:
+        ctx.check(len(titles) == 1 and odfread.ws_text(titles[0][0]) == title and ib[0] is titles[0], ("C20", where, "title"),
+                  f"title {title!r} not kept first: {[odfread.ws_text(t) for t in titles]}", case)
     others = [ch.tag for ch in ib if ch.tag not in (odfread.T_P, odfread.q("text:index-title"))]
     ctx.check(not others, ("C20", where, "foreign-children"), f"index body holds {others}", case)
     # the heading-listing tool reports the same outline
@@ -137,6 +139,7 @@ def run_case(case, ctx):
     with ctx.guard(("C20", "build", "exception"), case):
         doc, toc = build(case)
     n_fill = 0
+    title = case["title"]
     for step in case["steps"]:
         k = step["k"]
         with ctx.guard(("C20", k, "exception"), case):
@@ -148,7 +151,7 @@ def run_case(case, ctx):
                 else:
                     toc.fill()
                 n_fill += 1
-                judge(ctx, doc, toc, case, k, k != "fill-nostyle")
+                judge(ctx, doc, toc, case, k, k != "fill-nostyle", title)
                 once = toc.serialize()
                 toc.fill() if k != "fill-nostyle" else toc.fill(use_default_styles=False)
                 ctx.check(toc.serialize() == once, ("C20", k, "not-idempotent"),
@@ -173,6 +176,12 @@ def run_case(case, ctx):
                     hs[step["i"] % len(hs)].level = step["level"]
             elif k == "outline":
                 toc.outline_level = step["level"]
+            elif k == "title":
+                # the title given (or changed) after creation, possibly after a first fill
+                title = ["Contents", "Table des matières", "T2", "Sommaire", "Index of headings"][step["t"] % 5]
+                toc.set_toc_title(title)
+                ctx.check(toc.get_title() == title, ("C20", "title", "get_title"), f"set_toc_title({title!r}) then get_title() = {toc.get_title()!r}", case)
+                ctx.count("title-set-later")
             elif k == "reload":
                 # what a user does: save (optionally indented), open again, refresh the table of contents
                 from odfdo import Document
@@ -188,7 +197,7 @@ def run_case(case, ctx):
     if n_fill == 0:
         with ctx.guard(("C20", "fill", "exception"), case):
             toc.fill()
-            judge(ctx, doc, toc, case, "fill", True)
+            judge(ctx, doc, toc, case, "fill", True, title)
     levels = [it["level"] for it in case["items"] if it["k"] == "h"]
     skip_then_shallow = any(levels[i + 1] - levels[i] > 1 and any(l2 < levels[i + 1] for l2 in levels[i + 2:]) for i in range(len(levels) - 1))
     markup = any(it["k"] == "h" and (it.get("span") or "  " in it["text"] or it["text"] != it["text"].strip() or "\t" in it["text"]) for it in case["items"])
@@ -217,6 +226,7 @@ def run_shard(ctx):
         st.fixed_dictionaries({"k": st.just("remove"), "i": st.integers(0, 30)}),
         st.fixed_dictionaries({"k": st.just("level"), "i": st.integers(0, 30), "level": st.integers(1, 10)}),
         st.fixed_dictionaries({"k": st.just("outline"), "level": st.integers(0, 10)}),
+        st.fixed_dictionaries({"k": st.just("title"), "t": st.integers(0, 30)}),
         st.fixed_dictionaries({"k": st.just("reload"), "pretty": st.booleans()}),
         st.fixed_dictionaries({"k": st.just("reload"), "pretty": st.just(True)}),
     )
